@@ -20,13 +20,13 @@ type SV struct {
 }
 
 type SpecCtx struct {
-	ex      *Exec
-	pkg     *ssa.Package
-	vars    map[string]SV
-	heap    *Heap
-	old     *Heap
-	clause  *Clause
-	inOld   bool
+	ex     *Exec
+	pkg    *ssa.Package
+	vars   map[string]SV
+	heap   *Heap
+	old    *Heap
+	clause *Clause
+	inOld  bool
 }
 
 type specErr struct{ msg string }
